@@ -140,7 +140,7 @@ def run(chk: Check):
         vals = oci.class_assigns.get(name)
         if not vals:
             raise AnalysisError(f"ANCHOR-VANISHED {OVF}::OVF.{name}")
-        return chk.prog.fold(vals[0], mi, oci)
+        return chk.prog.fold_class_level(vals[0], oci)
 
     ns = dict(cattr("NS"))
     chk.decide(ns == {"ovf": "http://schemas.dmtf.org/ovf/envelope/1",
